@@ -39,3 +39,16 @@ ASSUMPTIONS = ["the user's state propagator and validity checker are determinist
 TRUSTED = ["extraction rewrite tables of units/C02.py", "stubs/harness code in units/C02/*.c", "CBMC 6.11"]
 NOT_COVERED = ["that each control planner (RRT, SST, EST, KPIECE, PDST, Syclop) assembles its PathControl from (state, control, steps*stepSize) of its motions, marks approximate solutions correctly and reaches the goal (planner solve() bodies are not under contract)",
                "the vector-result overload of propagateWhileValid, PathControl::check/interpolate"]
+
+MISC_CPPS = ['src/ompl/control/src/SpaceInformation.cpp', 'src/ompl/control/src/SimpleDirectedControlSampler.cpp', 'src/ompl/control/spaces/src/RealVectorControlSpace.cpp']
+NATIVE = [
+    dict(name="c02_native_search", driver="native/misc_native.cpp", link_ompl=True, unit_cpps=MISC_CPPS, args=lambda tier, seed: ["c02", seed, 2000 if tier == "quick" else 200000], timeout=900),
+]
+
+
+def replay(ur, scratch, seed):
+    """Search the real classes for a failing input (native/misc_native.cpp, mode c02)."""
+    from vf import native as N, cbmc as C
+    exe = N.build_driver("native/misc_native.cpp", scratch, link_ompl=True, unit_cpps=MISC_CPPS)
+    r = C.run_cmd([exe, "c02", str(seed), "50000"], 600, env=N.run_env())
+    return dict(found=(r["rc"] == 1), driver="native/misc_native.cpp", args=["c02", seed, 50000], link_ompl=True, unit_cpps=MISC_CPPS, output=r["out"][-2500:])
